@@ -146,6 +146,35 @@ theorem power_spectrum_rms_exact [LinearOrder K] [IsStrictOrderedRing K] (sqrt :
   rw [← hSdef]
   field_simp
 
+/-- … over the **mask**: for a binary mask and filtered noise that is non-zero on it (probability 1), the count the code uses
+(`count_nonzero(opd)`) is the number of mask pixels, so the mean square of the surface over the mask is exactly `rms²` -/
+theorem power_spectrum_rms_over_mask [LinearOrder K] [IsStrictOrderedRing K] (sqrt : K → K) (hsq : ∀ y, 0 ≤ y → sqrt y * sqrt y = y)
+    (rms : K) (mask : Nat → K) (x : Int → Nat → K) (seed : Int) (n : Nat)
+    (hbin : ∀ i, i < n → mask i = 0 ∨ mask i = 1) (hx : ∀ i, i < n → mask i = 1 → x seed i ≠ 0)
+    (hne : ∃ i, i < n ∧ mask i = 1) :
+    countNonzero (fun y => decide (y ≠ 0)) n (fun i => x seed i * mask i) = ((List.range n).filter fun i => decide (mask i = 1)).length ∧
+    (∑ i ∈ range n, powerSpectrum (fun y => decide (y ≠ 0)) sqrt (· / ·) (fun k => (k : K)) rms mask x seed n i ^ 2)
+      = (((List.range n).filter fun i => decide (mask i = 1)).length : K) * rms ^ 2 := by
+  have hcount : countNonzero (fun y => decide (y ≠ 0)) n (fun i => x seed i * mask i)
+      = ((List.range n).filter fun i => decide (mask i = 1)).length := by
+    unfold countNonzero
+    congr 1
+    apply List.filter_congr
+    intro i hi
+    have hi' : i < n := List.mem_range.mp hi
+    rcases hbin i hi' with h0 | h1
+    · simp [h0]
+    · simp [h1, hx i hi' h1]
+  refine ⟨hcount, ?_⟩
+  rw [← hcount]
+  apply power_spectrum_rms_exact sqrt hsq
+  obtain ⟨i, hi, hm⟩ := hne
+  have hpos : 0 < (x seed i * mask i) * (x seed i * mask i) := by
+    rw [hm, mul_one]; exact mul_self_pos.mpr (hx i hi hm)
+  have hle : (x seed i * mask i) * (x seed i * mask i) ≤ ∑ j ∈ range n, (x seed j * mask j) * (x seed j * mask j) :=
+    Finset.single_le_sum (f := fun j => (x seed j * mask j) * (x seed j * mask j)) (fun j _ => mul_self_nonneg _) (Finset.mem_range.mpr hi)
+  exact ne_of_gt (lt_of_lt_of_le hpos hle)
+
 /-- the surface scales linearly with the requested RMS (and nothing else depends on it) -/
 theorem power_spectrum_homogeneous (sqrt : K → K) (rms k : K) (mask : Nat → K) (x : Int → Nat → K) (seed : Int) (n i : Nat) :
     powerSpectrum (fun y => decide (y ≠ 0)) sqrt (· / ·) (fun k => (k : K)) (k * rms) mask x seed n i
